@@ -209,8 +209,12 @@ def r2_auto(text, fname, docs, log, allow=SCALAR, extra_types=()):
             off = rb.get('offset')
             if off is None and 'expansionLoc' in rb:
                 off = rb['expansionLoc'].get('offset')
-            if off is not None and text.startswith('auto', off):
+            mm = re.match(r'((?:const|static|constexpr|volatile)\s+)*auto\b', text[off:off + 60]) if off is not None else None
+            if mm:
+                off = off + mm.end() - 4
                 ty = n['type'].get('desugaredQualType', n['type'].get('qualType'))
+                if ty == 'auto' or 'dependent' in ty or 'type-parameter' in ty:
+                    return   # the template pattern itself; only concrete instantiations carry deduced types
                 if off in found and found[off] != ty:
                     raise ExtractError('auto at offset %d deduced as both %s and %s' % (off, found[off], ty))
                 found[off] = ty
@@ -378,4 +382,14 @@ def loop_modified(docs, text, func_name, k):
                 return
             mod.add((rd.get('id'), rd.get('name')))
     walk(loop, v)
+    if loop.get('kind') == 'ForStmt' and loop.get('inner'):
+        # variables declared in the for-init are loop-carried: visible at the loop head, so the hook must havoc them
+        init_decl = set()
+
+        def vi(n, parents):
+            if n.get('kind') == 'VarDecl':
+                init_decl.add(n.get('id'))
+        if isinstance(loop['inner'][0], dict):
+            walk(loop['inner'][0], vi)
+        inside_decl -= init_decl
     return sorted(n for i, n in mod if i not in inside_decl)
